@@ -110,6 +110,17 @@ func RunOnce(sc *Scenario, devs []dev) (*vsched.Execution, Outcome, string) {
 	}
 	e := vsched.Run(vsched.Config{Devs: vd, MaxSteps: sc.MaxSteps, Monitor: inst.Monitor, Dump: inst.Dump}, inst.Body)
 	diverged := e.Diverged
+	if e.Horizon && os.Getenv("VERIF_DEBUG") != "" {
+		n := len(e.Trace)
+		for _, p := range e.Trace[n-30:] {
+			fr := vsched.SiteFrames(p.Site)
+			f := ""
+			if len(fr) > 1 {
+				f = fr[0] + " < " + fr[1]
+			}
+			fmt.Printf("t%d %v en=%v -> %d   %s\n", p.Thread, p.Kind, p.Enabled, p.Chosen, f)
+		}
+	}
 	if e.Horizon {
 		return e, Outcome{}, "step horizon reached (possible livelock in the harness or in murex; not a verdict)"
 	}
@@ -119,6 +130,9 @@ func RunOnce(sc *Scenario, devs []dev) (*vsched.Execution, Outcome, string) {
 	o := inst.Finish(e)
 	if o.Clause == "" && len(e.Panics) > 0 {
 		o.Clause, o.Detail = "no-goroutine-panic", vlib.Clip(e.Panics[0], 1500)
+	}
+	if o.Clause == "" && e.Livelock {
+		o.Clause, o.Detail = "no-livelock", "every remaining thread spins on a condition nobody can change: "+strings.Join(e.Blocked, "; ")
 	}
 	if o.Clause == "" && e.Deadlock {
 		o.Clause, o.Detail = "no-deadlock", strings.Join(e.Blocked, "; ")
